@@ -253,7 +253,9 @@ int janet_fiber_funcframe(JanetFiber *fiber, JanetFunction *func) {
 static void janet_env_detach(JanetFuncEnv *env) {
     /* Check for closure environment */
     if (env) {
-        janet_env_valid(env);
+        /* An environment that turned out not to belong to a frame of its fiber (untrusted image)
+         * has already been emptied by janet_env_valid */
+        if (!janet_env_valid(env)) return;
         int32_t len = env->length;
         size_t s = sizeof(Janet) * (size_t) len;
         Janet *vmem = janet_malloc(s);
